@@ -359,10 +359,6 @@ void
 #endif
 			}
 
-                    /* release column "jj", so that the other processes
-                       waiting for this column can proceed */
-		    pxgstrf_shared->spin_locks[jj] = 0;
-		    
 		    /* copy the U-segments to ucol[*] */
 		    if ( (*info = psgstrf_copy_to_ucol
 			            (pnum,jj,nseg,segrep,&repfnz[k],
@@ -372,6 +368,12 @@ void
 		    /* Prune columns [0:jj-1] using column jj */
 		    pxgstrf_pruneL(jj, perm_r, pivrow, nseg, segrep,
 				   &repfnz[k], xprune, ispruned, Glu);
+
+                    /* release column "jj", so that the other processes
+                       waiting for this column can proceed; only now, because
+                       pruning with column "jj" must be complete before an
+                       ancestor column can prune the same supernodes */
+		    pxgstrf_shared->spin_locks[jj] = 0;
 
 		    /* Reset repfnz[] for this column */
 		    pxgstrf_resetrep_col (nseg, segrep, &repfnz[k]);
